@@ -1,0 +1,30 @@
+//go:build verif
+
+package verifhook
+
+import (
+	"os"
+	"os/signal"
+	"runtime/pprof"
+	"syscall"
+)
+
+// VERIF_DUMP=<file>: on SIGUSR1 the stacks of all goroutines are appended to that file (the harness asks
+// for it when an invocation does not terminate; plz itself handles every signal that would make the Go
+// runtime print them).
+func init() {
+	p := os.Getenv("VERIF_DUMP")
+	if p == "" {
+		return
+	}
+	ch := make(chan os.Signal, 1)
+	signal.Notify(ch, syscall.SIGUSR1)
+	go func() {
+		for range ch {
+			if f, err := os.OpenFile(p, os.O_WRONLY|os.O_APPEND|os.O_CREATE, 0644); err == nil {
+				pprof.Lookup("goroutine").WriteTo(f, 2)
+				f.Close()
+			}
+		}
+	}()
+}
